@@ -63,6 +63,7 @@ def set_triple(rng):
         else: out[rng.randrange(3)] = route + ",".join(left) + "|" + ",".join(right)
     return out
 
+NONASCII_ESC = ['"caf\u00e9"', '"caf\\xe9"', '"caf\\\\xe9"', "'caf\u00e9'", '"\u00fcber"', '"\\xfcber"', '"\\\\xfcber"', '"\\u00fcber"', '"\\\\u00fcber"']
 ESCAPED = ['"a\\x22b\'c"', '"a\\\\x22b\'c"', "'a\\x27b\"c'", '"a\\\\b"', '"a\\x5cb"', '"a\\x62"', '"ab"', "'a\"b'", '"a\\x22b"']
 def fused_pair(rng):
     """D36 class: a literal holding BOTH quote characters (spelled with \\x22 escapes) whose text imitates marker syntax"""
@@ -78,7 +79,8 @@ def marker_triple(rng):
     if rng.random() < 0.1:
         # literals spelled with Python escapes (outside PEP 508, but accepted): equal markers must still evaluate alike
         var = rng.choice(["platform_version", "os_name", "platform_release"])
-        return ["%s == %s" % (var, rng.choice(ESCAPED)) for _ in range(3)]
+        pool = ESCAPED if rng.random() < 0.6 else NONASCII_ESC     # a non-ASCII letter, its escape, and the text of that escape as a literal
+        return ["%s == %s" % (var, rng.choice(pool)) for _ in range(3)]
     m = gen_misc.marker(rng, 2)
     out = [m, gen_misc.marker_variant(rng, m), rng.choice([gen_misc.marker_variant(rng, m), gen_misc.marker(rng, 2)])]
     if rng.random() < 0.4: out[rng.randrange(3)] = "REQ:" + out[0]        # same text through Requirement(...).marker
